@@ -155,14 +155,13 @@ class Index:
             match, skipped = next_match()
         else:
             match = None
-            if until:
-                start = self.prefix + until + b"\x00"
-            else:
-                start = self.prefix + b"\xff"
-            cursor.set_range(start)
+            # seek to the first key that is later than until and step back, so that
+            # since <= created_at <= until, the same window the other indexes use
+            cursor.set_range(self.prefix + add_time)
+            prev()
             stop = self.prefix
             if since:
-                stop += since + b"\xff"
+                stop += since
             # print(f'{start} -> {stop}')
 
         def iterator(match):
